@@ -16,13 +16,13 @@ ASSUMPTIONS = ["rows are identified by a unique rid column; which rows a removed
 CASE_TIMEOUT = 300
 
 
-def _frame(rng, rid0, n, nparts):
+def _frame(rng, rid0, n, nparts, same_domain=False):
     import pandas as pd
     d = {"rid": np.arange(rid0, rid0 + n, dtype="int64"),
          "v0": rng.integers(-1000, 1000, n).astype("int64"),
          "v1": np.array(["s%d" % x for x in rng.integers(0, 50, n)], dtype=object)}
     if nparts >= 1:
-        d["p0"] = np.array(["a", "b", "c", "d"], dtype=object)[rng.integers(0, 4, n)]
+        d["p0"] = np.array(["a", "b", "c", "d"], dtype=object)[rng.integers(0, 4, n)] if not same_domain else rng.integers(0, 3, n).astype("int64")
     if nparts >= 2:
         d["p1"] = rng.integers(0, 3, n).astype("int64")
     return pd.DataFrame(d)
@@ -53,7 +53,9 @@ def gen_cases(tier, seed):
                 op["keys"] = int(rng.integers(1, 3))
             ops.append(op)
         cases.append({"id": "H/%d/%d" % (seed, i), "nparts": nparts, "init_seed": int(rng.integers(0, 2 ** 31)),
-                      "init_rows": int(rng.integers(1, 60)), "init_rgo": [None, 4, 9, 20][int(rng.integers(0, 4))], "ops": ops})
+                      "init_rows": int(rng.integers(1, 60)), "init_rgo": [None, 4, 9, 20][int(rng.integers(0, 4))], "ops": ops,
+                      # directory nesting order other than the frame's column order; both key columns over the same values
+                      "nesting_reversed": bool(nparts == 2 and i % 4 in (1, 2)), "same_domain": bool(nparts == 2 and i % 8 in (1, 5))})
     return cases
 
 
@@ -148,12 +150,14 @@ def run_case(case):
     from vf.mon import fsmon
     nparts = case["nparts"]
     pcols = ["p0", "p1"][:nparts]
+    if case.get("nesting_reversed"):
+        pcols = pcols[::-1]
     path = C.fresh_path("")
     counters = {}
     res = {"features": [], "nontrivial": False, "failures": [], "counters": counters}
     try:
         rng0 = np.random.default_rng([case["init_seed"], 1])
-        df = _frame(rng0, 0, case["init_rows"], nparts)
+        df = _frame(rng0, 0, case["init_rows"], nparts, case.get("same_domain", False))
         kw = {"file_scheme": "hive"}
         if pcols:
             kw["partition_on"] = pcols
@@ -184,7 +188,7 @@ def run_case(case):
             with fsmon.Audit(path) as aud:
                 try:
                     if k == "append":
-                        new = _frame(rng, next_rid, op["rows"], nparts)
+                        new = _frame(rng, next_rid, op["rows"], nparts, case.get("same_domain", False))
                         next_rid += len(new)
                         kw = {"file_scheme": "hive", "append": True}
                         if pcols:
@@ -196,7 +200,7 @@ def run_case(case):
                         model |= set(new["rid"].tolist())
                         pf = None
                     elif k == "overwrite":
-                        new = _frame(rng, next_rid, op["rows"], nparts)
+                        new = _frame(rng, next_rid, op["rows"], nparts, case.get("same_domain", False))
                         next_rid += len(new)
                         # restrict new data to a few partitions so that others must stay untouched
                         keys = sorted(set(new["p0"]))[:op["keys"]]
@@ -237,7 +241,7 @@ def run_case(case):
                         pf.remove_row_groups([pf.row_groups[i] for i in sel], sort_pnames=op["sort_pnames"])
                         model -= removed
                     elif k == "write_rgs":
-                        new = _frame(rng, next_rid, op["rows"], nparts)
+                        new = _frame(rng, next_rid, op["rows"], nparts, case.get("same_domain", False))
                         next_rid += len(new)
                         sk = {None: None, "path": (lambda rg: rg.columns[0].file_path), "nrows_desc": (lambda rg: -rg.num_rows),
                               "rid": (lambda rg: int.from_bytes(rg.columns[0].meta_data.statistics.min or b"\0", "little", signed=True)
